@@ -58,6 +58,11 @@ type Universe struct {
 	PrefixRelated func(i, j int) bool
 	// TKey returns the transformed (index) bytes of key k, for the "key" poison filling.
 	TKey func(k int) []byte
+	// LeafKey returns the stored and index byte forms a leaf of key k must hold (nil: both TKey).
+	LeafKey func(k int) (key, tkey []byte)
+	// LeafFromDump: the index bytes of a key cannot be computed outside the tree (collation sort
+	// keys); structural checks take them from the leaf that stores the key's original bytes.
+	LeafFromDump bool
 
 	order []int // class representatives sorted by rank
 }
